@@ -30,16 +30,49 @@ deriving DecidableEq, Repr, Inhabited
 inductive Stmt where
   | setTrue (f : Field)
   | setArg (f : Field)                 -- `= x` / `= x as u32`
-  | failIfZero (m : Msg)               -- `if x == 0 | x < 1 | x <= 0 { panic!/Err(MSG) }`
+  | failIfZero (m : Msg)               -- `if x == 0 | x < 1 { panic!(MSG) / return Err(MSG) }`  (unsigned argument)
+  | failIfNonPos (m : Msg)             -- `if x <= 0 { Err(MSG) } else { .. }`                  (signed argument)
 deriving DecidableEq, Repr, Inhabited
 
-inductive ArgKind where | none | bool | nat
+inductive ArgKind where | none | bool | nat | int
+deriving DecidableEq, Repr, Inhabited
+
+/-- the 17 setters of the builder API, under one name for the three front ends -/
+inductive SetterId where
+  | digits | nonDigits | whitespace | nonWhitespace | words | nonWords | repetitions | caseInsensitive
+  | capturingGroups | minRepetitions | minSubstringLength | escaping | verbose | noStartAnchor | noEndAnchor
+  | noAnchors | syntaxHighlighting
 deriving DecidableEq, Repr, Inhabited
 
 structure Setter where
-  name : String
+  id : SetterId
   arg : ArgKind
   body : List Stmt
+deriving DecidableEq, Repr, Inhabited
+
+/-- options of the command line (clap `name = ".."`) -/
+inductive CliField where
+  | digits | nonDigits | spaces | nonSpaces | words | nonWords | escape | withSurrogates | repetitions
+  | minRepetitions | minSubstringLength | noStartAnchor | noEndAnchor | noAnchors | verbose | colorize
+  | ignoreCase | captureGroups
+deriving DecidableEq, Repr, Inhabited
+
+structure CliFlag where
+  field : CliField
+  name : String
+  short : Option Nat
+  long : Bool
+  requires : Option CliField
+  isBool : Bool
+  default : Option Nat
+  rejectsZero : Bool
+deriving DecidableEq, Repr, Inhabited
+
+/-- `if cli.<cond> { builder.<setter>(cli.<arg>); }` (no condition for the threshold chain) -/
+structure CliAction where
+  cond : Option CliField
+  setter : SetterId
+  arg : Option CliField
 deriving DecidableEq, Repr, Inhabited
 
 end Grexv.Gen
